@@ -158,8 +158,14 @@ def gen_setval(rng, shape, name):
     if form == 6:       # invalid: a non-positive entry
         arr.ravel()[int(rng.integers(0, arr.size))] = -arr.ravel()[0] \
             if rng.integers(0, 2) else 0.0
-    return arr, f'{dims[0]} {dims[1]} {dims[2]} ' + ' '.join(
+    txt = f'{dims[0]} {dims[1]} {dims[2]} ' + ' '.join(
         fr(v) for v in arr.ravel())
+    if rng.integers(0, 3) == 0:
+        # the same values as a lower-dimensional array that broadcasts to the
+        # survey shape by NumPy's rules ((nf,), (nr, nf), (nr, 1), ...)
+        while arr.ndim > 1 and arr.shape[0] == 1:
+            arr = arr[0]
+    return arr, txt
 
 
 def run_sequence(ctx, rng, nops):
